@@ -87,7 +87,7 @@ def own_cases(rng, tier):
     return cases
 
 
-def run_trees(c, tier, what="basis", lines=None, io=None):
+def run_trees(c, tier, what="basis", lines=None, io=None, orig=None, label="trees"):
     """Replays every fvs/iso run of `lines` (generated here when None) through the acceptance model; violations go to the Check `c`.
     Returns a dict with counts (also stored in c.extra["trees"])."""
     stats = {"replayed": 0, "accepted": 0, "rejected": 0, "skipped_size": 0, "first_runs": 0, "first_reaccepted": 0}
@@ -137,6 +137,8 @@ def run_trees(c, tier, what="basis", lines=None, io=None):
         if nviol.get(kind, 0) >= 3: return
         nviol[kind] = nviol.get(kind, 0) + 1
         rep = {"component": "trees", "case": lines[i], "impl": io[i]}
+        if orig is not None:            # the run came from another harness (e.g. a *_tbb entry point under a schedule): keep its case
+            rep["orig_case"] = orig[i]; why = "%s [%s]" % (why, label)
         rep.update(extra or {})
         c.violation(why, rep, found)
     for i in sel:
@@ -189,7 +191,7 @@ def run_trees(c, tier, what="basis", lines=None, io=None):
     for alg in ("fvs", "iso"):
         for i in order[alg]:
             _, n, es, ret, cycles, roots, picks = parsed[i]
-            if n <= fn and len(es) <= fm:
+            if n <= fn and len(es) <= fm and orig is None:      # (the model-side self-test is not repeated for runs taken from another harness)
                 fl.append(first_line(alg, gts[i], roots, picks)); fo.append(i)
     fres = lib.run_model("first", fl, group=GROUP, timeout=1500)
     re_lines, re_idx = {"fvs": [], "iso": []}, {"fvs": [], "iso": []}
